@@ -143,6 +143,62 @@ func checkC09(c *Ctx) {
 				return false
 			})
 		}
+		// "append unless the signer already voted" may be one helper of the package that returns the new list and a
+		// flag: under flag == true its list result is append(list, cert) and the flag is true only after a complete
+		// scan of the list found no vote of the same signer
+		viaHelper := false
+		if ex, isEx := upd.Value.(*ssa.Extract); isEx && ex.Index == 0 {
+			if hc, isCall := ex.Tuple.(*ssa.Call); isCall && facts[Fact{"true", fl.K.Key(hc) + "#1", ""}] {
+				hf := hc.Call.StaticCallee()
+				if hf != nil && hf.Blocks != nil && funcPkgPath(hf) == funcPkgPath(vc) && hf.Signature.Results().Len() == 2 {
+					li, ci := -1, -1
+					for i, a := range hc.Call.Args {
+						switch fl.K.Key(a) {
+						case listK:
+							li = i
+						case "p1":
+							ci = i
+						}
+					}
+					if li >= 0 && ci >= 0 {
+						hfl := NewFlow(p, hf)
+						lp, cp := "p"+itoa(li), "p"+itoa(ci)
+						all, n := true, 0
+						for _, r := range returnsOf(hf) {
+							if !hfl.Reachable(r.Block()) || isBoolConst(retValue(r, 1), false) {
+								continue
+							}
+							n++
+							okApp := false
+							if call, ok := retValue(r, 0).(*ssa.Call); ok && len(call.Call.Args) == 2 && strings.HasPrefix(hfl.K.Key(call), "builtin append("+lp+", ") {
+								storedInto(sliceBase(call.Call.Args[1]), func(e ssa.Value) bool {
+									if hfl.K.Key(e) == cp {
+										okApp = true
+									}
+									return false
+								})
+							}
+							same := func(hit []Fact, elem string) bool {
+								a, b := "(hs.PartialCert).Signer("+elem+")", "(hs.PartialCert).Signer("+cp+")"
+								for _, f := range hit {
+									if f.Op == "==" && ((f.L == a && f.R == b) || (f.L == b && f.R == a)) {
+										return true
+									}
+								}
+								return false
+							}
+							if !okApp || !isBoolConst(retValue(r, 1), true) || noMatchBefore(hfl, r, func(k string) bool { return k == lp }, same) == "" {
+								all = false
+							}
+						}
+						viaHelper = all && n > 0 && keyK == kPCHash+"p1)"
+					}
+				}
+			}
+		}
+		if viaHelper {
+			okK, appended = true, true
+		}
 		c.Check(okK && appended, "C09.1/keyed", "verifyCert: vote recorded under its own block hash", p.InstrPos(upd),
 			"verifiedVotes[cert.BlockHash()] = append(verifiedVotes[cert.BlockHash()], cert)", "update is "+kVotes+"["+keyK+"] = "+valK)
 		// duplicate signer: the hit edge of v.Signer()==cert.Signer() over that list cannot reach the update
@@ -155,7 +211,7 @@ func checkC09(c *Ctx) {
 				}
 			}
 		})
-		okD := len(hits) > 0
+		okD := len(hits) > 0 || viaHelper
 		for _, h := range hits {
 			if reachAvoidBlock(h.Block().Succs[0], func(in ssa.Instruction) bool { return in == upd }, func(ssa.Instruction) bool { return false }) != nil {
 				okD = false
@@ -165,7 +221,7 @@ func checkC09(c *Ctx) {
 				okD = false
 			}
 		}
-		if !okD {
+		if !okD && !viaHelper {
 			// either idiom: explicit loop with return on the hit, or slices.ContainsFunc/IndexFunc
 			sameSigner := func(hit []Fact, elem string) bool {
 				for _, f := range hit {
